@@ -12,6 +12,8 @@ use std::collections::HashMap;
 
 #[derive(Clone, Debug, PartialEq, Eq, Hash, Serialize, Deserialize)]
 pub enum Expr {
+    /// `Range::any()`: the only value that is unbounded on both sides (a parsed `*` is `>=0.0.0`)
+    Any,
     Leaf(String),
     And(Box<Expr>, Box<Expr>),
     Minus(Box<Expr>, Box<Expr>),
@@ -20,13 +22,14 @@ pub enum Expr {
 impl Expr {
     pub fn depth(&self) -> usize {
         match self {
-            Expr::Leaf(_) => 0,
+            Expr::Leaf(_) | Expr::Any => 0,
             Expr::And(a, b) | Expr::Minus(a, b) => 1 + a.depth().max(b.depth()),
         }
     }
     pub fn leaves<'a>(&'a self, out: &mut Vec<&'a String>) {
         match self {
             Expr::Leaf(t) => out.push(t),
+            Expr::Any => {}
             Expr::And(a, b) | Expr::Minus(a, b) => {
                 a.leaves(out);
                 b.leaves(out);
@@ -36,6 +39,7 @@ impl Expr {
     pub fn show(&self) -> String {
         match self {
             Expr::Leaf(t) => format!("[{}]", t),
+            Expr::Any => "Range::any()".to_string(),
             Expr::And(a, b) => format!("({} ∩ {})", a.show(), b.show()),
             Expr::Minus(a, b) => format!("({} \\ {})", a.show(), b.show()),
         }
@@ -60,6 +64,7 @@ pub enum EvalErr {
 /// `max_alts`: stop (as discard) when an operand grows beyond this many alternatives.
 pub fn eval_crate(e: &Expr) -> Result<Option<Range>, EvalErr> {
     match e {
+        Expr::Any => Ok(Some(Range::any())),
         Expr::Leaf(t) => match guard(|| Range::parse(t)) {
             Ok(Ok(r)) => Ok(Some(r)),
             Ok(Err(_)) => Err(EvalErr::Leaf(t.clone())),
@@ -108,6 +113,7 @@ pub fn leaf_models(e: &Expr) -> Result<HashMap<String, IModel>, EvalErr> {
 pub fn model_in_bounds(e: &Expr, lm: &HashMap<String, IModel>, v: &MVersion) -> bool {
     match e {
         Expr::Leaf(t) => lm[t].in_bounds(v),
+        Expr::Any => true,
         Expr::And(a, b) => model_in_bounds(a, lm, v) && model_in_bounds(b, lm, v),
         Expr::Minus(a, b) => model_in_bounds(a, lm, v) && !model_in_bounds(b, lm, v),
     }
@@ -229,6 +235,22 @@ pub fn expr(pool: Vec<MVersion>, depth: u32, max_alts: usize) -> BoxedStrategy<E
     let l = leaf(pool, max_alts);
     if depth == 0 {
         return l;
+    }
+    l.prop_recursive(depth, 8, 2, |inner| {
+        prop_oneof![
+            (inner.clone(), inner.clone()).prop_map(|(a, b)| and(a, b)),
+            (inner.clone(), inner).prop_map(|(a, b)| minus(a, b)),
+        ]
+    })
+    .boxed()
+}
+
+/// as `expr`, with `Range::any()` as an occasional leaf (not for the print/parse round trip: `*` re-parses
+/// to `>=0.0.0`, and `Range::any()` is not reachable from `Range::parse`)
+pub fn expr_with_any(pool: Vec<MVersion>, depth: u32, max_alts: usize) -> BoxedStrategy<Expr> {
+    let l = prop_oneof![24 => leaf(pool, max_alts), 1 => Just(Expr::Any)];
+    if depth == 0 {
+        return l.boxed();
     }
     l.prop_recursive(depth, 8, 2, |inner| {
         prop_oneof![
